@@ -3,63 +3,45 @@
    core-level theorems that follow from `check_prog P = true` for ANY program P
    (the regenerated StreamIR.v as well as the reference RefIR.v).           *)
 From Coq Require Import List Bool Arith PArith FMapPositive.
-From GV Require Import Stream.Sem Stream.Eq Stream.ClosedSet.
+From GV Require Import Stream.Sem Stream.Eq Stream.ClosedSet Stream.Monitors.
 Import ListNotations.
 
-(* ---- step-local checks (the source state and the label) ---- *)
-Definition is_waiter (m : meth) : bool :=
-  match m with MRecv | MHeader => true | _ => false end.
-
-(* a return that does not delegate: which value may a call of m hand back, and when *)
-Definition ret_ok (s : core) (x : thr) (m : meth) (r : retk) : bool :=
-  negb (post x) &&             (* a call started after the creation has to reach the stream *)
-  match m, r with
-  | MSend, RLocalErr => lerr x && anyfail s                       (* the creation error *)
-  | MRecv, RLocalErr | MHeader, RLocalErr => lerr x && anyfail s  (* the creation error *)
-  | MRecv, RInitErr | MHeader, RInitErr => err s && anyfail s     (* (read at the return) *)
-  | MRecv, RCtxErr | MHeader, RCtxErr => cdone s                  (* the context ended *)
-  | MCloseSend, RNil | MTrailer, RNil => true
-  | MContext, RCallCtx => true
-  | _, _ => false
-  end.
-
-Definition label_ok (s : core) (l : label) : bool :=
+(* ---- step-local checks ----
+   The monitor automaton of Monitors.v accepts the label in the monitor state
+   `amon s` that the source state projects to, and the target state projects to
+   the monitor's next state; plus the mutex discipline (not observable from
+   outside, so not part of the monitor). *)
+Definition mutex_ok (s : core) (l : label) : bool :=
   match l with
-  | LCall _ _ | LTau _ | LCancel => true
-  | LCreate t wm _ =>
-      negb (created s)                                  (* single_creation *)
-      && wm                                             (* first_message_visible *)
-      && match cm (get_thr s t) with Some MSend => true | _ => false end
-  | LDeleg t m same =>
-      stream s && same && negb (holds s t)
-      && match cm (get_thr s t) with Some m' => meth_eqb m m' | None => false end
-  | LRet t r =>
-      negb (holds s t)                                  (* no return with the mutex held *)
-      && match cm (get_thr s t) with
-         | Some m => ret_ok s (get_thr s t) m r
-         | None => match t, r with TW, RNil => true | _, _ => false end
-         end
-  | LPanic _ _ | LForeignUnlock _ | LUnsupported _ => false
+  | LRet t _ _ | LDeleg t _ _ => negb (holds s t)     (* no return with the mutex held *)
+  | _ => true                                          (* bad unlocks are labels the monitor refuses *)
   end.
 
-Definition trans_ok (s : core) (l : label) (_ : core) : bool := label_ok s l.
+Definition trans_ok (s : core) (l : label) (s' : core) : bool :=
+  mutex_ok s l &&
+  match astep (amon s) l with
+  | Some a' => ams_eqb a' (amon s')
+  | None => false
+  end.
 
 (* ---- state check: no lost wake-up, no deadlock ---- *)
 Definition has_internal (P : prog) (s : core) : bool :=
   existsb (fun ls => internal (fst ls)) (next P s).
 
-(* may the thread rest in this status when nothing internal can happen any more? *)
-Definition rest_ok (s : core) (x : thr) : bool :=
-  match st x with
+(* may thread t rest in its status when nothing internal can happen any more? *)
+Definition rest_ok (s : core) (t : tid) : bool :=
+  match st (get_thr s t) with
   | TIdle | TFin => true
-  | TWait _ => negb (stream s) && negb (err s) && negb (cdone s)   (* nothing to be woken for *)
+  | TWait _ =>
+      (* nothing to be woken for - in terms of the store and in terms of the monitor *)
+      negb (stream s) && negb (err s) && negb (cdone s) && stuck_ok (amon s) (StuckWait t)
   | TRun (IAwaitDone :: _) => negb (cdone s)
   | TRun _ | TWoken _ => false                                     (* blocked on the mutex for good *)
   | TDead => false
   end.
 
 Definition state_ok (P : prog) (s : core) : bool :=
-  has_internal P s || (rest_ok s (th0 s) && rest_ok s (th1 s) && rest_ok s (thw s)).
+  has_internal P s || (rest_ok s T0 && rest_ok s T1 && rest_ok s TW).
 
 (* ---- the checker, instantiated ---- *)
 Definition tbl := table core.
@@ -89,6 +71,22 @@ Definition max_rank (P : prog) : nat :=
 
 Definition reachable (P : prog) : core -> Prop := reach core label (next P) inits.
 
+Lemma obool_eqb_sound : forall a b, obool_eqb a b = true -> a = b.
+Proof.
+  intros [[m p]|] [[n q]|]; simpl; intro H; try reflexivity; try discriminate.
+  apply andb_true_iff in H. destruct H as [H1 H2].
+  apply meth_eqb_sound in H1. apply Bool.eqb_prop in H2. subst. reflexivity.
+Qed.
+
+Lemma ams_eqb_sound : forall a b, ams_eqb a b = true -> a = b.
+Proof.
+  intros [a1 a2 a3 a4 a5] [b1 b2 b3 b4 b5]. unfold ams_eqb. simpl. intro H.
+  repeat (apply andb_true_iff in H; destruct H as [H ?]).
+  repeat match goal with E : obool_eqb _ _ = true |- _ => apply obool_eqb_sound in E; subst end.
+  repeat match goal with E : Bool.eqb _ _ = true |- _ => apply Bool.eqb_prop in E; subst end.
+  reflexivity.
+Qed.
+
 Section Checked.
   Variable P : prog.
   Hypothesis CK : check_prog P = true.
@@ -103,12 +101,15 @@ Section Checked.
   Qed.
 
   Theorem every_step_ok : forall s, reachable P s ->
-    forall l s', In (l, s') (next P s) -> label_ok s l = true.
+    forall l s', In (l, s') (next P s) ->
+      astep (amon s) l = Some (amon s') /\ mutex_ok s l = true.
   Proof.
     destruct tables as [m [r [A _]]]. intros s R l s' Hin.
     destruct (closed_sound core label (next P) inits core_eqb core_eqb_sound hcore
                            (state_ok P) trans_ok m A s R) as [_ [_ H]].
-    exact (H l s' Hin).
+    specialize (H l s' Hin). unfold trans_ok in H. apply andb_true_iff in H. destruct H as [H1 H2].
+    split; [|exact H1].
+    destruct (astep (amon s) l) as [a'|]; [|discriminate]. apply ams_eqb_sound in H2. congruence.
   Qed.
 
   Theorem every_state_ok : forall s, reachable P s -> state_ok P s = true.
@@ -128,101 +129,113 @@ Section Checked.
                       (state_ok P) trans_ok internal _ m A B).
   Qed.
 
+  Lemma open_of : forall s t, is_user t = true ->
+    a_open (amon s) t = match cm (get_thr s t) with Some m => Some (m, post (get_thr s t)) | None => None end.
+  Proof. intros s t H. destruct t; simpl in *; try reflexivity; discriminate. Qed.
+
   (* ---- the named properties, core level ---- *)
   Theorem single_creation : forall s, reachable P s ->
     forall t wm ok s', In (LCreate t wm ok, s') (next P s) -> created s = false.
   Proof.
-    intros s R t wm ok s' Hin. pose proof (every_step_ok s R _ _ Hin) as H. simpl in H.
-    apply andb_true_iff in H. destruct H as [H _]. apply andb_true_iff in H. destruct H as [H _].
-    apply negb_true_iff in H. exact H.
+    intros s R t wm ok s' Hin. destruct (every_step_ok s R _ _ Hin) as [H _]. cbn [astep] in H.
+    destruct (a_open (amon s) t) as [[[] p]|]; try discriminate.
+    destruct (negb (a_created (amon s)) && wm) eqn:E; [|discriminate].
+    apply andb_true_iff in E. destruct E as [E _]. apply negb_true_iff in E. exact E.
   Qed.
 
   Theorem first_message_visible : forall s, reachable P s ->
     forall t wm ok s', In (LCreate t wm ok, s') (next P s) ->
-      wm = true /\ cm (get_thr s t) = Some MSend.
+      wm = true /\ exists p, a_open (amon s) t = Some (MSend, p).
   Proof.
-    intros s R t wm ok s' Hin. pose proof (every_step_ok s R _ _ Hin) as H. simpl in H.
-    apply andb_true_iff in H. destruct H as [H H2]. apply andb_true_iff in H. destruct H as [_ H1].
-    split; [exact H1|]. destruct (cm (get_thr s t)) as [[]|]; try discriminate. reflexivity.
+    intros s R t wm ok s' Hin. destruct (every_step_ok s R _ _ Hin) as [H _]. cbn [astep] in H.
+    destruct (a_open (amon s) t) as [[[] p]|]; try discriminate.
+    destruct (negb (a_created (amon s)) && wm) eqn:E; [|discriminate].
+    apply andb_true_iff in E. destruct E as [_ E]. split; [exact E|]. exists p. reflexivity.
   Qed.
 
-  Theorem recv_waits_then_delegates : forall s, reachable P s ->
-    forall t x, get_thr s t = x -> cm x = Some MRecv ->
-      (forall m same s', In (LDeleg t m same, s') (next P s) -> stream s = true /\ m = MRecv /\ same = true) /\
-      (forall r s', In (LRet t r, s') (next P s) ->
-         post x = false /\
-         ((r = RLocalErr /\ lerr x = true /\ anyfail s = true) \/
-          (r = RInitErr /\ err s = true /\ anyfail s = true) \/
-          (r = RCtxErr /\ cdone s = true))).
-  Proof.
-    intros s R t x Hx Hm. split.
-    - intros m same s' Hin. pose proof (every_step_ok s R _ _ Hin) as H. simpl in H.
-      rewrite Hx, Hm in H.
-      repeat (apply andb_true_iff in H; destruct H as [H ?]).
-      split; [exact H|]. split; [apply meth_eqb_sound; assumption | assumption].
-    - intros r s' Hin. pose proof (every_step_ok s R _ _ Hin) as H. simpl in H.
-      rewrite Hx, Hm in H. apply andb_true_iff in H. destruct H as [_ H]. unfold ret_ok in H.
-      apply andb_true_iff in H. destruct H as [Hp H]. apply negb_true_iff in Hp. split; [exact Hp|].
-      destruct r; try discriminate.
-      + left. apply andb_true_iff in H. destruct H. auto.
-      + right; left. apply andb_true_iff in H. destruct H. auto.
-      + right; right. auto.
-  Qed.
-
-  (* once created, a call cannot end without reaching the stream, and reaches it unchanged *)
-  Theorem delegation_in_order : forall s, reachable P s -> forall t,
-      (forall r s', In (LRet t r, s') (next P s) -> cm (get_thr s t) <> None -> post (get_thr s t) = false) /\
+  (* a RecvMsg (or any call) reaches the stream only once it exists; otherwise it
+     returns the creation error (one was seen) or the context error (it ended) *)
+  Theorem recv_waits_then_delegates : forall s, reachable P s -> forall t,
       (forall m same s', In (LDeleg t m same, s') (next P s) ->
-         cm (get_thr s t) = Some m /\ same = true /\ stream s = true).
+         created s = true /\ same = true /\ exists p, a_open (amon s) t = Some (m, p)) /\
+      (forall r v s', In (LRet t r v, s') (next P s) -> is_user t = true ->
+         exists m, a_open (amon s) t = Some (m, false) /\ ret_allowed (amon s) m v = true).
   Proof.
     intros s R t. split.
-    - intros r s' Hin Hc. pose proof (every_step_ok s R _ _ Hin) as H. simpl in H.
-      apply andb_true_iff in H. destruct H as [_ H].
-      destruct (cm (get_thr s t)) as [m|]; [|congruence].
-      unfold ret_ok in H. apply andb_true_iff in H. destruct H as [H _]. apply negb_true_iff in H. exact H.
-    - intros m same s' Hin. pose proof (every_step_ok s R _ _ Hin) as H. simpl in H.
-      repeat (apply andb_true_iff in H; destruct H as [H ?]).
-      destruct (cm (get_thr s t)) as [m'|]; [|discriminate].
-      match goal with E : meth_eqb _ _ = true |- _ => apply meth_eqb_sound in E; subst end. auto.
+    - intros m same s' Hin. destruct (every_step_ok s R _ _ Hin) as [H _]. cbn [astep] in H.
+      destruct (a_open (amon s) t) as [[m' p]|]; [|discriminate].
+      destruct (a_created (amon s) && same && meth_eqb m m') eqn:E; [|discriminate].
+      apply andb_true_iff in E. destruct E as [E E3]. apply andb_true_iff in E. destruct E as [E1 E2].
+      apply meth_eqb_sound in E3. subst m'. split; [exact E1|]. split; [exact E2|]. exists p. reflexivity.
+    - intros r v s' Hin Hu. destruct (every_step_ok s R _ _ Hin) as [H _]. cbn [astep] in H.
+      destruct t; try discriminate.
+      + destruct (a_open (amon s) T0) as [[m p]|]; [|discriminate].
+        destruct (negb p && ret_allowed (amon s) m v) eqn:E; [|discriminate].
+        apply andb_true_iff in E. destruct E as [E1 E2]. apply negb_true_iff in E1. subst p.
+        exists m. auto.
+      + destruct (a_open (amon s) T1) as [[m p]|]; [|discriminate].
+        destruct (negb p && ret_allowed (amon s) m v) eqn:E; [|discriminate].
+        apply andb_true_iff in E. destruct E as [E1 E2]. apply negb_true_iff in E1. subst p.
+        exists m. auto.
+  Qed.
+
+  (* a call started after the creation cannot end without reaching the stream
+     (the `false` above is its started-after-creation flag), and what reaches the
+     stream is the call's own method with its own arguments; each thread runs its
+     calls one after the other, so the order per thread is the program order *)
+  Theorem delegation_in_order : forall s, reachable P s -> forall t m,
+      cm (get_thr s t) = Some m -> post (get_thr s t) = true -> is_user t = true ->
+      (forall r v s', ~ In (LRet t r v, s') (next P s)) /\
+      (forall m' same s', In (LDeleg t m' same, s') (next P s) -> m' = m /\ same = true).
+  Proof.
+    intros s R t m Hm Hp Hu. pose proof (open_of s t Hu) as Ho. rewrite Hm, Hp in Ho. split.
+    - intros r v s' Hin. destruct (recv_waits_then_delegates s R t) as [_ H].
+      destruct (H r v s' Hin Hu) as [m0 [E _]]. rewrite Ho in E. discriminate.
+    - intros m' same s' Hin. destruct (recv_waits_then_delegates s R t) as [H _].
+      destruct (H m' same s' Hin) as [_ [E [p E2]]]. rewrite Ho in E2. inversion E2. auto.
   Qed.
 
   Theorem no_method_panics : forall s, reachable P s ->
     forall t w s', ~ In (LPanic t w, s') (next P s).
   Proof.
-    intros s R t w s' Hin. pose proof (every_step_ok s R _ _ Hin) as H. simpl in H. discriminate.
+    intros s R t w s' Hin. destruct (every_step_ok s R _ _ Hin) as [H _]. simpl in H. discriminate.
   Qed.
 
   Theorem mutex_discipline : forall s, reachable P s ->
     (forall t s', ~ In (LForeignUnlock t, s') (next P s)) /\
     (forall t s', ~ In (LPanic t WUnlockUnlocked, s') (next P s)) /\
-    (forall t r s', In (LRet t r, s') (next P s) -> holds s t = false) /\
+    (forall t r v s', In (LRet t r v, s') (next P s) -> holds s t = false) /\
     (forall t m same s', In (LDeleg t m same, s') (next P s) -> holds s t = false).
   Proof.
     intros s R. repeat split.
-    - intros t s' Hin. pose proof (every_step_ok s R _ _ Hin) as H. simpl in H. discriminate.
-    - intros t s' Hin. pose proof (every_step_ok s R _ _ Hin) as H. simpl in H. discriminate.
-    - intros t r s' Hin. pose proof (every_step_ok s R _ _ Hin) as H. simpl in H.
-      apply andb_true_iff in H. destruct H as [H _]. apply negb_true_iff in H. exact H.
-    - intros t m same s' Hin. pose proof (every_step_ok s R _ _ Hin) as H. simpl in H.
-      repeat (apply andb_true_iff in H; destruct H as [H ?]).
-      match goal with E : negb (holds s t) = true |- _ => apply negb_true_iff in E; exact E end.
+    - intros t s' Hin. destruct (every_step_ok s R _ _ Hin) as [H _]. simpl in H. discriminate.
+    - intros t s' Hin. destruct (every_step_ok s R _ _ Hin) as [H _]. simpl in H. discriminate.
+    - intros t r v s' Hin. destruct (every_step_ok s R _ _ Hin) as [_ H]. simpl in H.
+      apply negb_true_iff in H. exact H.
+    - intros t m same s' Hin. destruct (every_step_ok s R _ _ Hin) as [_ H]. simpl in H.
+      apply negb_true_iff in H. exact H.
   Qed.
 
   (* When no internal step is possible any more (which every schedule reaches after
      at most `bound s` internal steps), a thread still in the wait set has nothing
      to be woken for: no stream, no creation error, context alive.  So a wake-up
      is never lost, and nobody is blocked on the mutex. *)
-  Theorem no_lost_wakeup : forall s, reachable P s -> has_internal P s = false ->
-    forall t k, st (get_thr s t) = TWait k ->
-      stream s = false /\ err s = false /\ cdone s = false.
+  Lemma rest_all : forall s, reachable P s -> has_internal P s = false -> forall t, rest_ok s t = true.
   Proof.
-    intros s R Hq t k Hw. pose proof (every_state_ok s R) as H. unfold state_ok in H.
+    intros s R Hq t. pose proof (every_state_ok s R) as H. unfold state_ok in H.
     rewrite Hq in H. simpl in H.
     apply andb_true_iff in H. destruct H as [H Hc]. apply andb_true_iff in H. destruct H as [Ha Hb].
-    assert (G : rest_ok s (get_thr s t) = true) by (destruct t; assumption).
+    destruct t; assumption.
+  Qed.
+
+  Theorem no_lost_wakeup : forall s, reachable P s -> has_internal P s = false ->
+    forall t k, st (get_thr s t) = TWait k ->
+      stream s = false /\ err s = false /\ cdone s = false /\ stuck_ok (amon s) (StuckWait t) = true.
+  Proof.
+    intros s R Hq t k Hw. pose proof (rest_all s R Hq t) as G.
     unfold rest_ok in G. rewrite Hw in G.
-    apply andb_true_iff in G. destruct G as [G G3]. apply andb_true_iff in G. destruct G as [G1 G2].
-    apply negb_true_iff in G1, G2, G3. auto.
+    repeat (apply andb_true_iff in G; destruct G as [G ?]).
+    repeat match goal with E : negb _ = true |- _ => apply negb_true_iff in E end. auto.
   Qed.
 
   Theorem no_deadlock : forall s, reachable P s -> has_internal P s = false ->
@@ -232,10 +245,7 @@ Section Checked.
               | _ => False
               end.
   Proof.
-    intros s R Hq t. pose proof (every_state_ok s R) as H. unfold state_ok in H.
-    rewrite Hq in H. simpl in H.
-    apply andb_true_iff in H. destruct H as [H Hc]. apply andb_true_iff in H. destruct H as [Ha Hb].
-    assert (G : rest_ok s (get_thr s t) = true) by (destruct t; assumption).
+    intros s R Hq t. pose proof (rest_all s R Hq t) as G.
     unfold rest_ok in G. destruct (st (get_thr s t)) as [|k|k|k| |]; try exact I; try discriminate.
     destruct k as [|i k]; [discriminate|]. destruct i; try discriminate.
     apply negb_true_iff in G. exact G.
